@@ -150,7 +150,7 @@ Definition inv_heap (n0 : loc) (R : region) (H : aheap) (h : heap) : Prop :=
   forall l g k, kids h l g k ->
     ((l < next h)%nat /\ (k < next h)%nat) /\
     ((l < n0)%nat -> ((k < n0)%nat /\ forall q, R q l -> R q k) \/
-                     exists a, PS.In a (po H) /\ gamma n0 R h a k) /\
+                     exists a, PS.In a (fm_look (po H) g) /\ gamma n0 R h a k) /\
     ((n0 <= l)%nat -> exists a, PS.In a (hp_look (hp H) (site_of h l) g) /\ gamma n0 R h a k).
 
 (* h' extends h: nothing is deallocated and no object changes its allocation site *)
@@ -206,7 +206,7 @@ Proof.
   destruct a0 as [p|p|]; cbn [gamma hpts] in *.
   - destruct Hg as [Hl0 Hr]. destruct (Hold Hl0) as [[Hlo Hcl]|[a [Ha Hga]]].
     + exists (xI p). split; [apply aunion_l; apply asingle_in|]. cbn [gamma]. split; [exact Hlo|exact (Hcl _ Hr)].
-    + exists a. split; [apply aunion_r; exact Ha|exact Hga].
+    + exists a. split; [apply aunion_r; exact (fm_look_match _ f g a Hm Ha)|exact Hga].
   - destruct Hg as [Hge Hs]. destruct (Hnew Hge) as [a [Ha Hga]]. exists a. split; [|exact Hga].
     rewrite Hs in Ha. exact (hp_look_match _ _ f g a Hm Ha).
   - destruct Hg.
